@@ -57,7 +57,8 @@ WORKERS = {"quick": 16, "thorough": 16}
 REQUIRE = dict({"checked_" + t: 20 for t in R.MESSAGE_TYPES},
                **{"subsets_enumerated": 1925, "status_values_swept": 65536, "with_dataset": 2000,
                   "multi_valued_at": 500, "multi_fragment_command": 200, "max_len_uid": 200, "max_len_ae": 50,
-                  "roundtrips_completed": 20000})
+                  "roundtrips_completed": 20000, "dataset_stream_not_at_start": 1000,
+                  "forwarded_hops": 20000})
 EXHAUSTIVE = {"quick": False, "thorough": False}
 
 US_FIELDS = [k for k, (_, vr, _) in R.ELEMENTS.items() if vr == "US"
@@ -217,7 +218,12 @@ def make_spec(t, mask, prof, rng):
     else:
         mx = rng.choice([0, 16382, 65536, 128, 30, 16] + ([8, 7] if dlen < 300 else []))
         cx = rng.randrange(1, 256, 2)
-    return {"t": t, "p": params, "ds": ds, "mx": mx, "cx": cx}
+    spec = {"t": t, "p": params, "ds": ds, "mx": mx, "cx": cx}
+    if ds:
+        # where the data-set stream's position is when the primitive is handed over: a fresh BytesIO(bytes), one that
+        # was filled with write() (position at the end, as decode_msg leaves it), or one that was partly read
+        spec["dspos"] = ("start", "end", "mid")[vprof] if vprof < 3 else rng.choice(["start", "start", "end", "mid"])
+    return spec
 
 
 # ----------------------------------------------------------------------------- cases
@@ -405,7 +411,16 @@ def check_one(spec, counters):
         for kw, v in spec["p"].items():
             setattr(p, kw, v)
         if ds_bytes is not None:
-            setattr(p, mt.dataset, BytesIO(ds_bytes))
+            bio = BytesIO(ds_bytes)
+            pos = spec.get("dspos", "start")
+            if pos == "end":
+                bio = BytesIO()
+                bio.write(ds_bytes)
+            elif pos == "mid":
+                bio.read(max(1, len(ds_bytes) // 2))
+            if pos != "start":
+                bump("dataset_stream_not_at_start")
+            setattr(p, mt.dataset, bio)
     except (ValueError, TypeError) as exc:
         bump("rejected_by_setters")
         info["rejected"] = repr(exc)[:200]
@@ -570,6 +585,30 @@ def check_one(spec, counters):
         elif after[kw] != before[kw]:
             add("param-differs|%s|%s|%s" % (t, kw, _kind(before[kw], after[kw])),
                 "%s: sent %r, received %r ; spec %s" % (kw, before[kw], after[kw], json.dumps(spec)[:400]))
+    # ---- second hop: the received primitive handed on as it is (a forwarding SCP / a handler re-sending what it got)
+    try:
+        m2 = cls()
+        m2.primitive_to_message(q)
+        pdvs2 = []
+        for pd in m2.encode_msg(spec["cx"], spec["mx"]):
+            for cx, data in pd.presentation_data_value_list:
+                pdvs2.append((cx, data[0], bytes(data[1:])))
+        msgs2 = R.reassemble(pdvs2)
+        bump("forwarded_hops")
+        if len(msgs2) != 1:
+            add("forwarded|message-count|%s" % t, "%d messages reassembled from the re-sent primitive; problems %r" % (len(msgs2), msgs2.problems[:3]), True)
+        else:
+            w2 = msgs2[0]
+            got2 = R.parse_command_set(w2["command_set_bytes"], [])
+            has2 = w2["data_fragments"] > 0
+            if (got2.get("CommandDataSetType") == R.NO_DATA_SET) == has2:
+                add("forwarded|cdst-vs-fragments|%s" % t, "re-sent primitive: CommandDataSetType %r with %d data fragments (data set %s bytes)"
+                    % (got2.get("CommandDataSetType"), w2["data_fragments"], None if ds_bytes is None else len(ds_bytes)), True)
+            if bool(ds_bytes) != has2 or (ds_bytes and w2["data_set_bytes"] != ds_bytes):
+                add("forwarded|dataset-bytes|%s" % t, "re-sent primitive carries %s data-set bytes on the wire, the original had %s"
+                    % (len(w2["data_set_bytes"] or b"") if has2 else None, None if ds_bytes is None else len(ds_bytes)), True)
+    except Exception as exc:
+        add("forwarded|raises|%s|%s" % (t, type(exc).__name__), "%r for %s" % (exc, json.dumps(spec)[:600]), True)
     info["nontrivial"] = len(want) > 1 or bool(ds_bytes)
     info["hash"] = sha(t.encode() + b"|" + cmd_bytes + b"|" + (ds_bytes or b""))[:10]
     return viol, info
